@@ -46,6 +46,8 @@ func checkC01(ctx *Ctx, r *Report) {
 	c01OmitEmptyOnCollections(ctx, r)
 	c01LoopLocalResult(ctx, r)
 	c12UnionWrapperClassified(ctx, r)
+	c01AbsentDefaultedField(ctx, r)
+	c01DefinitionIdentity(ctx, r)
 }
 
 func checkC11(ctx *Ctx, r *Report) {
@@ -2429,4 +2431,99 @@ func c11FourthRound(ctx *Ctx, r *Report) {
 		"the decoding map resolves each mapping entry to the first branch with that *name*: for `liba.Cat | libb.Cat` both entries give liba.Cat — a catb document is decoded as a liba.Cat and written back as another document, silently")
 	r.Check(followsAliases, "selectors/python-branch-by-discriminator-value", "python.disjunctionFromJSON follows aliases to a class", fd.Pos(), "a branch that is an alias is replaced by the class it names",
 		"the decoding map holds the branch as it is: for `MyCat: Cat; pet: MyCat | Dog` that is the alias, a string at run time — AttributeError: 'str' object has no attribute 'from_json'")
+}
+
+// c01AbsentDefaultedField: a required field that has a default may be left out of a document (the source schema fills
+// it in). The strict decoder accepts its absence — the "missing" error is only written when the field has no default —
+// but then has to give the field that default: otherwise the zero value is kept and written back (`replicas: 0` for
+// `int & >=1 | *1`), a document the schema rejects. The rule: some branch of the struct template taken when the field
+// is absent and has a default (`ne $field.Type.Default nil` or the else-part of the `eq … nil` test) assigns the field.
+func c01AbsentDefaultedField(ctx *Ctx, r *Report) {
+	ts, err := loadTemplates(ctx, "golang")
+	if err != nil {
+		r.Undecided("templates of golang: %v", err)
+		return
+	}
+	name := "types/struct.strict.json_unmarshal.tmpl"
+	tree := ts.trees[name]
+	if tree == nil {
+		r.Undecided("anchor lost: golang template %s", name)
+		return
+	}
+	tested, assigns := false, false
+	walkTmpl(tree.Root, func(n parse.Node) bool {
+		in, ok := n.(*parse.IfNode)
+		if !ok {
+			return true
+		}
+		cond := in.Pipe.String()
+		if !strings.Contains(cond, ".Type.Default") {
+			return true
+		}
+		tested = true
+		writes := func(l *parse.ListNode) bool {
+			found := false
+			if l == nil {
+				return false
+			}
+			walkTmpl(l, func(q parse.Node) bool {
+				switch x := q.(type) {
+				case *parse.TextNode:
+					if strings.Contains(string(x.Text), "resource.") && strings.Contains(string(x.Text), " = ") {
+						found = true
+					}
+				case *parse.TemplateNode:
+					if strings.Contains(x.Name, "default") {
+						found = true
+					}
+				}
+				return true
+			})
+			return found
+		}
+		negative := strings.Contains(cond, "eq ") && !strings.Contains(cond, "not (eq")
+		if negative && writes(in.ElseList) || !negative && writes(in.List) {
+			assigns = true
+		}
+		return true
+	})
+	if !tested {
+		r.Undecided("anchor changed: %s no longer tests the default of a field", name)
+		return
+	}
+	r.Count("tests of a field's default in the Go strict decoder", 1)
+	r.Check(assigns, "skeleton/absent-defaulted-field-gets-default", "golang strict decoder gives an absent field its default", token.NoPos, ts.file[name]+": the branch taken for an absent field that has a default assigns it",
+		ts.file[name]+": the absence of a required field that has a default is accepted and nothing assigns that default: the field keeps its zero value and is written back (`{\"name\":\"x\"}` for `replicas: int & >=1 | *1` comes back as `\"replicas\":0`, which the schema rejects); the standard decoder has the same hole (no UnmarshalJSON starts from the constructor's value)")
+}
+
+// c01DefinitionIdentity: the JSON Schema front-end names an object after the last segment of the reference that leads
+// to it and keeps the names it has declared; a name alone does not identify a schema (`…/Folder/properties/id`,
+// `…/User/properties/id`). declareDefinition must compare the *location* of the schema with the one recorded for the
+// name before it answers "already declared".
+func c01DefinitionIdentity(ctx *Ctx, r *Report) {
+	fn := ctx.LookupMethod("internal/jsonschema", "generator", "declareDefinition")
+	fd, p := ctx.DeclOf(fn)
+	if fd == nil || fd.Body == nil {
+		r.Undecided("anchor lost: jsonschema.generator.declareDefinition")
+		return
+	}
+	info := p.TypesInfo
+	compares := false
+	ast.Inspect(fd.Body, func(m ast.Node) bool {
+		be, ok := m.(*ast.BinaryExpr)
+		if !ok || (be.Op != token.NEQ && be.Op != token.EQL) {
+			return true
+		}
+		for _, side := range []ast.Expr{be.X, be.Y} {
+			if sel, ok := ast.Unparen(side).(*ast.SelectorExpr); ok && sel.Sel.Name == "Location" {
+				if f := fieldOf(info, sel); f != nil && f.Pkg() != nil && strings.Contains(f.Pkg().Path(), "santhosh-tekuri/jsonschema") {
+					compares = true
+				}
+			}
+		}
+		return true
+	})
+	r.Count("definition registries of the JSON Schema front-end", 1)
+	r.Check(compares, "frontier/definition-identity-by-location", "jsonschema.declareDefinition identifies a schema by its location", fd.Pos(), "the location of the schema is compared with the one recorded under the name",
+		"a name already declared is taken for the same definition whatever it points to: `#/definitions/Folder/properties/id` (a string) and `#/definitions/User/properties/id` (an integer) become one type `Id` — the accepted document {\"folderId\":\"f-1\",\"userId\":7} can not be decoded by either Go decoder")
 }
